@@ -195,21 +195,19 @@ def build(case):
     so, ss = case.get('obs_style', 'plain'), case.get('samp_style', 'plain')
     spec = {k: v for k, v in case.items() if k in ('shape', 'mask', 'rot', 'pool', 'obs_md', 'samp_md',
                                                    'layout')}
-    # build with plain ids through the shared domain, then rename to the (possibly own) style:
-    # update_ids is not involved – ids are handed to the constructor of a rebuilt table
+    spec['obs_style'] = so if so in D.ID_STYLES else 'plain'
+    spec['samp_style'] = ss if ss in D.ID_STYLES else 'plain'
     t = D.build(spec)
     if t is None:
         return None
-    if so == 'plain' and ss == 'plain':
-        return t
-    oids = ids_for(so, 'observation', shape[0])
-    sids = ids_for(ss, 'sample', shape[1])
-    omd = t.metadata(axis='observation')
-    smd = t.metadata(axis='sample')
-    t2 = Table(t.matrix_data, oids, sids,
-               None if omd is None else [dict(m) for m in omd],
-               None if smd is None else [dict(m) for m in smd])
-    return t2
+    # styles defined in this module: rename in place (keeps the layout prefix); the oracle
+    # reads the ids back from the table, so it does not rely on update_ids being right
+    for st, ax, n in ((so, 'observation', shape[0]), (ss, 'sample', shape[1])):
+        if st not in D.ID_STYLES:
+            new = ids_for(st, ax, n)
+            t.update_ids(dict(zip([str(i) for i in t.ids(axis=ax)], new)), axis=ax, strict=True,
+                         inplace=True)
+    return t
 
 
 def pyify(x):
@@ -440,6 +438,11 @@ def check(case, acc, tmp):
         if not good:
             acc.count('skipped:readers-after-bad-text')
             continue
+        dup = [w0 for w0, (s0, e0) in texts.items() if s0 == s and e0 == exported]
+        if dup:
+            # the readers are functions of the text: an identical text is not read a second time
+            acc.count('text-identical:%s=%s' % (w, dup[0]))
+            continue
         texts[w] = (s, exported)
 
     # ---------------------------------------------------------------- readers
@@ -488,7 +491,7 @@ def check(case, acc, tmp):
                     acc.trans += 1
                     r = load_table(out)
             except Exception as e:
-                if out is not None and not control_ok(t, fmt, base, oids, sids, bits, want_md, key):
+                if out is not None and not control_ok(t, fmt, base, oids, sids, bits, want_md, name):
                     acc.count('attributed-elsewhere:%s' % rd)
                 else:
                     bad('reader-raised:%s:%s' % (rd, type(e).__name__), '%s (text of %s) raised %s: %s; text=%r'
@@ -539,7 +542,7 @@ def check(case, acc, tmp):
                 acc.count('clause:read-metadata')
             if problems and rd.startswith('convert_') and \
                     not control_ok(t, 'hdf5' if rd == 'convert_hdf5' else 'json', base, oids, sids, bits,
-                                   want_md, key):
+                                   want_md, name):
                 acc.count('attributed-elsewhere:%s' % rd)
                 problems = []
             for sig, detail in problems:
@@ -549,19 +552,23 @@ def check(case, acc, tmp):
         rm(path, gz)
 
 
-def control_ok(t, fmt, base, oids, sids, bits, want_md, key):
-    """Does the source table written *directly* in `fmt` load back faithfully?  If not, a
-    deviation seen behind `convert` TSV->fmt belongs to the HDF5/JSON property, not to C03."""
-    from biom import load_table
+def control_ok(t, fmt, base, oids, sids, bits, want_md, name):
+    """Control run for the `convert` TSV->fmt readers: the table a correct TSV reader would have
+    produced (same ids and values, the category under its column name) is written *directly*
+    in `fmt` and loaded.  If that is not faithful either, the deviation belongs to the
+    HDF5/JSON property (C01/C02), not to C03."""
+    from biom import Table, load_table
     p = base + '.control.biom'
     try:
         os.unlink(p)
     except OSError:
         pass
     try:
-        write_native(t, fmt, p)
+        c = Table(np.asarray(t.matrix_data.toarray(), float), list(oids), list(sids),
+                  None if want_md is None else [{name: v} for v in want_md])
+        write_native(c, fmt, p)
         r = load_table(p)
-        return faithful(r, oids, sids, bits, want_md, key)
+        return faithful(r, oids, sids, bits, want_md, name)
     except Exception:
         return False
     finally:
@@ -678,7 +685,10 @@ def run(run):
                               {'what': 'subprocess import path'})
         else:
             run.assumptions.append('`%s` child processes import biom from %s' % (BIOM_EXE, root))
-    P.run_cases(run, cs, check)
+    # deterministic interleaving so that every chunk holds a mix of cheap and expensive products
+    n = 64
+    cs = [x for k in range(n) for x in cs[k::n]]
+    P.run_cases(run, cs, check, nchunks=n)
     c = run.acc.counters
     run.extra['products'] = {k[5:]: v for k, v in c.items() if k.startswith('prod:')}
     run.extra['bound'] = {
@@ -692,6 +702,8 @@ def run(run):
         'fixed_masks_for_B': [[list(s), m] for s, m in FIXED],
         'writers': {'A,V': CHEAP_WRITERS, 'CV,B-ids,B-md': WRITERS},
         'readers': {'A,V': CHEAP_READERS, 'CV,B-ids,B-md': READERS},
+        'writer_x_reader': 'every reader is run on every *distinct* text of a table (texts of two writers '
+                           'that are character-identical are read once; counters text-identical:*)',
         'subprocess_cases': c.get('prod:SUB', 0), 'cases': len(cs)}
     need = ['clause:text-ids', 'clause:text-values', 'clause:text-metadata', 'clause:read-ids',
             'clause:read-values', 'clause:read-metadata'] + \
